@@ -1,6 +1,7 @@
 package main
 
 import (
+	"errors"
 	"fmt"
 	"hash/fnv"
 	"sort"
@@ -96,6 +97,7 @@ func listOps() []*opDef {
 		// consumers: full, partial or no iteration; the result is a scalar, the operand itself or an element
 		{name: "eval()", src: "a.eval()", res: rSame, model: okm(func(a *mval) *mval { return a })},
 		{name: "first()", src: "a.first()", res: rSame, model: at(0)},
+		{name: "host iteration stopped behind the first element", src: "hostFirst(a)", res: rSame, model: at(0)},
 		{name: "last()", src: "a.last()", res: rSame, model: func(a, b *mval) (*mval, bool) {
 			if len(a.l) == 0 {
 				return nil, false
@@ -180,6 +182,30 @@ type env struct {
 
 func newEnv(ctx *bex.Ctx) *env {
 	e := &env{ctx: ctx, fg: value.New(), st: funcGen.NewEmptyStack[value.Value](), byName: map[string]*opDef{}}
+	// the HOST iterates a list through List.Iterate and stops behind the first element (what an exporter with
+	// a size limit or a host loop with break does); returns that element
+	e.fg.AddStaticFunction("hostFirst", funcGen.Function[value.Value]{
+		Func: func(st funcGen.Stack[value.Value], cs []value.Value) (value.Value, error) {
+			l, ok := st.Get(0).(*value.List)
+			if !ok {
+				return nil, errors.New("hostFirst needs a list")
+			}
+			var first value.Value
+			var ferr error
+			l.Iterate(funcGen.NewEmptyStack[value.Value]())(func(v value.Value, err error) bool {
+				first, ferr = v, err
+				return false
+			})
+			if ferr != nil {
+				return nil, ferr
+			}
+			if first == nil {
+				return nil, errors.New("hostFirst on an empty list")
+			}
+			return first, nil
+		},
+		Args: 1, IsPure: false,
+	}.SetDescription("list", "first element, read by a host iteration that stops at once"))
 	e.lops, e.mops = listOps(), mapOps()
 	for k, l := range map[byte][]*opDef{'l': e.lops, 'm': e.mops} {
 		for _, o := range l {
